@@ -24,6 +24,14 @@ func SetApprove(cfg *program.Config, device, policy string, failed bool) {
 	result := "OK"
 	if failed {
 		result = "FAILED"
+		// Result of last successful approve gets lost.
+		// Hence an older result of compare must no longer be used.
+		switch v.Approve.Result {
+		case "OK", "WARNINGS":
+			if v.Compare.Time < v.Approve.Time {
+				v.Compare = action{}
+			}
+		}
 	}
 	v.Approve = action{result, policy, mytime.Now().Unix()}
 	write(cfg, device, v)
